@@ -705,7 +705,26 @@ pub fn decode_bitbox(dir: &Path, d: &mut Decoded, trie: &RefTrie) {
     d.feat("merkle_nodes_compared", nodes_checked);
     d.feat_max("max_elided_children", elided_seen);
     d.feat_max("max_page_tree_pages_reached", visited.len() as u64);
-    let unref = stored.len() as u64 - visited.len() as u64;
+    // Stored pages that the trie does not reference. NOMT clears (tombstones) a page when it
+    // becomes empty or elided, so none should remain; a stale full bucket is found first by later
+    // probes for the same page id. An all-zero root page on a trie without internal root is
+    // tolerated.
+    let mut unref = 0u64;
+    for (label, (bkt, page)) in &stored {
+        if visited.contains(label) {
+            continue;
+        }
+        if *label == root_label && page[..126 * 32].iter().all(|b| *b == 0) {
+            continue;
+        }
+        unref += 1;
+        if unref <= 2 {
+            issues.push(format!(
+                "stale merkle page: bucket {bkt} is marked full and holds a page (depth {}) that the current trie does not reference",
+                path_of_label(label).map_or(0, |p| p.len())
+            ));
+        }
+    }
     d.feat_max("max_stored_pages_not_referenced", unref);
     d.issues.extend(issues);
 }
